@@ -446,3 +446,22 @@ PLANS["C04"] = dict(
     assumptions=["white space is never inserted between the two numbers of a coordinate"],
     trusted_base=["TLC 2026.09.04", "CommunityModules Json/IOUtils", "strconv.ParseFloat", "harness tokeniser"],
 )
+
+# ---- C02 -------------------------------------------------------------------------------------------
+
+
+def run_c02(ctx):
+    ctx.mc("GeoJsonMC", "GeoJsonMC.cfg", workers=8, note="documents of the bounded shape set are well-formed RFC 7946; ring/bound = polygon document; empty = null; Norm idempotent")
+    shards = ctx.gen("geojson")
+    ctx.validate("GeoJson_Trace", shards)
+
+
+PLANS["C02"] = dict(
+    run=run_c02, signature=sig_default,
+    technique="TLA+ abstract JSON documents (GeomDoc / FeatureDoc / FCDoc, RFC 7946 shape predicate, Norm); TLC checks the document model on a bounded shape set and validates the documents parsed out of the real JSON bytes and the values decoded back through JSON and BSON",
+    level_text="TLC checks on the 534-shape bounded set that the specified document of every geometry is well-formed RFC 7946 (type names the kind, coordinates nested exactly as deep as the kind requires, collections use geometries), that a ring or bound gives the polygon's document and an empty collection null. For seeded geometries (nine kinds, nested collections incl. empty ones, coordinates over the full finite float64 range), features (id absent / string / number, properties over null, bool, number, string, array, object, optional bbox) and feature collections with foreign members, the harness parses the produced JSON generically (encoding/json, numbers -> strconv -> bit id); TLC requires the document to equal the specified one exactly, the values decoded through UnmarshalGeometry / UnmarshalFeature / UnmarshalFeatureCollection and through BSON to equal the normal form of the input, and the re-marshalled JSON to be byte-identical.",
+    level_note="That a decimal string denotes a float64 is decided by strconv + bit interning in the harness. Geometries containing nil slices marshal to \"coordinates\": null and are not generated (the quantifier does not name them); a bare top-level empty collection is not a geometry document and is only exercised inside features. Foreign members named exactly type / bbox / features are excluded by the quantifier (other spellings such as Type, Features are generated). The six helper types are exercised in C05. Trusted: TLC, Json module, encoding/json and bson as lenses on the bytes, strconv.",
+    rule="one event = one geometry / feature / feature collection with its JSON document and both decoded values; all events non-trivial; distinct = distinct event text",
+    assumptions=["encoding/json (UseNumber) and go.mongodb.org bson read the produced bytes faithfully"],
+    trusted_base=["TLC 2026.09.04", "CommunityModules Json/IOUtils", "encoding/json", "bson", "strconv.ParseFloat"],
+)
